@@ -319,8 +319,11 @@ func c05(c *core.Ctx, r *core.Report) {
 						return
 					}
 					if call, ok := an.Strip(u.X).(*ssa.Call); ok && call.Common().IsInvoke() && call.Common().Method.Name() == "Done" {
-						if strings.Contains(an.D().Of(call.Common().Value), "context.WithCancel(") {
-							recv = in
+						src := an.OutOfGoroutine(c.AllFuncs, call.Common().Value)
+						if ex, isEx := src.(*ssa.Extract); isEx {
+							if wc, isCall := ex.Tuple.(*ssa.Call); isCall && an.IsFunc(an.Callee(wc), "context", "WithCancel") {
+								recv = in
+							}
 						}
 					}
 				})
